@@ -48,6 +48,8 @@ type loopRun struct {
 	modRefs  []modTarget // heap regions the loop may modify
 	allocMark *T // lowest reference allocated before the loop was entered
 	preSt    *state // state before havoc (for old-style references)
+	cuts     map[*ssa.BasicBlock]map[ssa.Value]Val // cut points already continued: recorded live values
+	cutFns   map[*ssa.BasicBlock]map[*Cell]Val
 }
 
 type modTarget struct {
@@ -624,6 +626,17 @@ func (x *executor) allModifies() []*clause {
 }
 
 func (x *executor) modTargetOf(ev *evaluator, e Expr) modTarget {
+	// state(e): the abstract (model-function) state attached to the type of e, not its memory
+	if call, ok := e.(*ECall); ok {
+		if id, ok := call.Fun.(*EIdent); ok && id.Name == "state" && len(call.Args) == 1 {
+			v := ev.eval(call.Args[0])
+			t := v.typ
+			if pt, ok := t.Underlying().(*types.Pointer); ok {
+				t = pt.Elem()
+			}
+			return modTarget{iface: typeKeyShort(t)}
+		}
+	}
 	v := ev.eval(e)
 	c := x.c
 	switch u := v.typ.Underlying().(type) {
@@ -668,6 +681,10 @@ func (x *executor) runMachine(m *machine) {
 			// block entry: loop handling
 			if li := fr.loopBy[fr.block]; li != nil {
 				if !x.enterLoopHeader(m, fr, li) {
+					return
+				}
+			} else if cs := x.cutsAt(fr, fr.block); len(cs) > 0 {
+				if !x.enterCut(m, fr, cs) {
 					return
 				}
 			}
@@ -735,6 +752,24 @@ func (x *executor) enterLoopHeader(m *machine, fr *frame, li *loopInfo) bool {
 			intT := types.Typ[types.Int]
 			x.oblige(m, "decreases", lname, mkAnd(c.cmp(token.LSS, mnow, lr.measure0, intT), c.cmp(token.GEQ, lr.measure0, c.I(0), intT)), nil, lc.decreases.text)
 		}
+		// abstract state changed by the body must be declared in the loop's modifies
+		for k, tok := range m.st.tokens {
+			if old, ok := lr.headSt.tokens[k]; ok && old == tok {
+				continue
+			}
+			if _, ok := lr.headSt.tokens[k]; !ok && tok.op == "tok0_"+sanitize(k) {
+				continue
+			}
+			declared := false
+			for _, mt := range lr.modRefs {
+				if mt.iface != "" && tokenKey(mt.iface) == k {
+					declared = true
+				}
+			}
+			if !declared {
+				x.oblige(m, "frame", lname+".abstract-state:"+k, tFalse, nil, "abstract state of "+k+" is modified in the loop but not declared in its modifies")
+			}
+		}
 		return false
 	}
 	// entry edge
@@ -749,9 +784,51 @@ func (x *executor) enterLoopHeader(m *machine, fr *frame, li *loopInfo) bool {
 		ev.where = cl.line
 		lr.modRefs = append(lr.modRefs, x.modTargetOf(ev, cl.e))
 	}
+	x.havocLoopRegion(m, fr, li, lr, nil, nil)
+	ev = x.contractEval(m, fr, pos, "")
+	ev = x.loopEval(ev, lr)
+	for _, cl := range lc.invariants {
+		ev.where = cl.line
+		m.st.assume(ev.evalBool(cl.e))
+	}
+	if lc.decreases != nil {
+		ev.where = lc.decreases.line
+		lr.measure0 = ev.toInt(ev.eval(lc.decreases.e))
+	}
+	lr.headSt = m.st.clone()
+	fr.active[li.header] = lr
+	// vacuity guard: loop head reachable with the invariant
+	cov := x.oblige(m, "cover", lname, tFalse, nil, "loop head reachable under invariant")
+	cov.expectSat = true
+	return true
+}
+
+// havocLoopRegion makes the state an arbitrary state of the loop: cells written in the loop, the declared
+// heap regions and abstract states, and everything allocated by earlier iterations get fresh values.
+func (x *executor) havocLoopRegion(m *machine, fr *frame, li *loopInfo, lr *loopRun, keptFns map[*Cell]Val, cellBlocks map[*ssa.BasicBlock]bool) {
+	c := x.c
 	// havoc cells assigned in the loop
 	x.loopHeapLocals = nil
 	written := x.cellsWrittenInLoop(m, fr, li)
+	if cellBlocks != nil {
+		// at a cut: only cells that may be written on the way from the loop head to the cut are unknown
+		x.loopHeapLocals = nil
+		all := written
+		written = x.cellsWrittenInLoop(m, fr, &loopInfo{header: li.header, blocks: cellBlocks, ordinal: li.ordinal, pos: li.pos})
+		if keptFns != nil {
+			hav := map[*Cell]bool{}
+			for _, c := range written {
+				hav[c] = true
+			}
+			for _, c := range all {
+				if v, ok := m.st.cells[c]; ok && !hav[c] {
+					keptFns[c] = v
+				}
+			}
+		}
+		x.loopHeapLocals = nil
+		x.cellsWrittenInLoop(m, fr, li)
+	}
 	for _, mt := range x.loopHeapLocals {
 		dup := false
 		for _, o := range lr.modRefs {
@@ -769,6 +846,11 @@ func (x *executor) enterLoopHeader(m *machine, fr *frame, li *loopInfo) bool {
 			continue
 		}
 		if old.t == nil {
+			if keptFns != nil && old.fn != nil {
+				// at a cut: a function value assigned before the cut keeps its (path-independent, checked) value
+				keptFns[cell] = old
+				continue
+			}
 			panic(unsupported("loop assigns executor-level variable " + cell.name))
 		}
 		nv := c.d.fresh(cell.name, old.t.sort)
@@ -816,22 +898,6 @@ func (x *executor) enterLoopHeader(m *machine, fr *frame, li *loopInfo) bool {
 		}
 		m.st.arrs[heapKey(t)] = nh
 	}
-	ev = x.contractEval(m, fr, pos, "")
-	ev = x.loopEval(ev, lr)
-	for _, cl := range lc.invariants {
-		ev.where = cl.line
-		m.st.assume(ev.evalBool(cl.e))
-	}
-	if lc.decreases != nil {
-		ev.where = lc.decreases.line
-		lr.measure0 = ev.toInt(ev.eval(lc.decreases.e))
-	}
-	lr.headSt = m.st.clone()
-	fr.active[li.header] = lr
-	// vacuity guard: loop head reachable with the invariant
-	cov := x.oblige(m, "cover", lname, tFalse, nil, "loop head reachable under invariant")
-	cov.expectSat = true
-	return true
 }
 
 // loopEval binds `pre(e)`-style access: variables named x@pre are not supported;
@@ -1106,7 +1172,7 @@ func (x *executor) runAts(m *machine, fr *frame, in ssa.Instruction) {
 		return
 	}
 	for _, at := range fr.fc.ats {
-		if at.stmt != txt {
+		if at.stmt != txt || at.kind == "cut" {
 			continue
 		}
 		at.used = true
@@ -1184,4 +1250,270 @@ func (x *executor) allocTypesInLoop(fr *frame, li *loopInfo) (obj []types.Type, 
 		}
 	}
 	return
+}
+
+// ---- cut points -----------------------------------------------------------------
+// `cut [tags] name: e at "stmt"` places a cut at the entry of the basic block that contains the statement
+// (a call, return or if with that source text). Every path arriving there proves the cut's clauses and ends;
+// one path continues from an arbitrary state of the enclosing loop (everything the loop may write is havocked,
+// the path condition is reset to the loop head's) in which only the cut's clauses are known. This merges the
+// paths through the code before the cut. SSA values computed before the cut and used after it must be the same
+// on every arriving path (checked; otherwise the function is reported as unsupported).
+
+func (x *executor) cutsAt(fr *frame, b *ssa.BasicBlock) []*atClause {
+	if fr.fc == nil {
+		return nil
+	}
+	has := false
+	for _, at := range fr.fc.ats {
+		if at.kind == "cut" {
+			has = true
+		}
+	}
+	if !has {
+		return nil
+	}
+	var out []*atClause
+	for _, in := range b.Instrs {
+		switch in.(type) {
+		case *ssa.DebugRef, *ssa.If, *ssa.Jump:
+			continue
+		}
+		if !in.Pos().IsValid() {
+			continue
+		}
+		txt := x.sourceOf(fr.fn, in)
+		for _, at := range fr.fc.ats {
+			if at.kind == "cut" && at.stmt == txt {
+				dup := false
+				for _, o := range out {
+					if o == at {
+						dup = true
+					}
+				}
+				if !dup {
+					out = append(out, at)
+				}
+			}
+		}
+	}
+	return out
+}
+
+// liveAcross: SSA values that are live at the entry of b: used in a block reachable from b (b included)
+// along a path that does not pass through the value's definition.
+func liveAcross(b *ssa.BasicBlock) map[ssa.Value]bool {
+	out := map[ssa.Value]bool{}
+	uses := map[*ssa.BasicBlock]map[ssa.Value]bool{}
+	for _, bb := range b.Parent().Blocks {
+		u := map[ssa.Value]bool{}
+		for _, in := range bb.Instrs {
+			for _, op := range in.Operands(nil) {
+				if *op != nil {
+					u[*op] = true
+				}
+			}
+		}
+		uses[bb] = u
+	}
+	cands := map[ssa.Value]bool{}
+	for _, u := range uses {
+		for v := range u {
+			cands[v] = true
+		}
+	}
+	for v := range cands {
+		var def *ssa.BasicBlock
+		if in, ok := v.(ssa.Instruction); ok {
+			def = in.Block()
+		}
+		if def == b {
+			continue
+		}
+		seen := map[*ssa.BasicBlock]bool{}
+		var visit func(bb *ssa.BasicBlock) bool
+		visit = func(bb *ssa.BasicBlock) bool {
+			if seen[bb] || bb == def {
+				return false
+			}
+			seen[bb] = true
+			if uses[bb][v] {
+				return true
+			}
+			for _, s := range bb.Succs {
+				if visit(s) {
+					return true
+				}
+			}
+			return false
+		}
+		if visit(b) {
+			out[v] = true
+		}
+	}
+	return out
+}
+
+// cutBetween: the blocks of the loop that may execute between the loop head and the cut block b and whose
+// effects can differ from path to path: blocks from which b is reachable inside the loop, minus the linear
+// prefix of b's dominator chain (header, then blocks with that single predecessor), minus b itself.
+func cutBetween(li *loopInfo, b *ssa.BasicBlock) map[*ssa.BasicBlock]bool {
+	reach := map[*ssa.BasicBlock]bool{}
+	var back func(x *ssa.BasicBlock)
+	back = func(x *ssa.BasicBlock) {
+		for _, p := range x.Preds {
+			if !li.blocks[p] || reach[p] || p == li.header {
+				continue
+			}
+			reach[p] = true
+			back(p)
+		}
+	}
+	back(b)
+	// dominator chain header .. b
+	var chain []*ssa.BasicBlock
+	for d := b; d != nil; d = d.Idom() {
+		chain = append([]*ssa.BasicBlock{d}, chain...)
+		if d == li.header {
+			break
+		}
+	}
+	if len(chain) > 0 && chain[0] == li.header {
+		for k := 1; k < len(chain); k++ {
+			d := chain[k]
+			if len(d.Preds) == 1 && d.Preds[0] == chain[k-1] {
+				delete(reach, d)
+			} else {
+				break
+			}
+		}
+	}
+	delete(reach, b)
+	return reach
+}
+
+func sameVal(a, b Val) bool {
+	if a.ptr != nil || b.ptr != nil {
+		if a.ptr == nil || b.ptr == nil {
+			return false
+		}
+		if a.ptr.kind != b.ptr.kind || a.ptr.cell != b.ptr.cell {
+			return false
+		}
+		if (a.ptr.ref == nil) != (b.ptr.ref == nil) || (a.ptr.ref != nil && !same(a.ptr.ref, b.ptr.ref)) {
+			return false
+		}
+		return len(a.ptr.path) == len(b.ptr.path)
+	}
+	if a.fn != nil || b.fn != nil {
+		if a.fn == nil || b.fn == nil || a.fn.fn != b.fn.fn || len(a.fn.bindings) != len(b.fn.bindings) {
+			return false
+		}
+		for i := range a.fn.bindings {
+			if !sameVal(a.fn.bindings[i], b.fn.bindings[i]) {
+				return false
+			}
+		}
+		return true
+	}
+	if len(a.tup) != len(b.tup) {
+		return false
+	}
+	for i := range a.tup {
+		if !sameVal(a.tup[i], b.tup[i]) {
+			return false
+		}
+	}
+	if (a.t == nil) != (b.t == nil) {
+		return false
+	}
+	if a.t != nil && !same(a.t, b.t) {
+		return false
+	}
+	return true
+}
+
+func (x *executor) enterCut(m *machine, fr *frame, cuts []*atClause) bool {
+	b := fr.block
+	// innermost enclosing loop
+	var li *loopInfo
+	for _, l := range fr.loops {
+		if l.blocks[b] && (li == nil || len(l.blocks) < len(li.blocks)) {
+			li = l
+		}
+	}
+	if li == nil {
+		panic(unsupported("cut outside a loop in " + fr.key))
+	}
+	lr := fr.active[li.header]
+	if lr == nil || lr.headSt == nil {
+		panic(unsupported("cut reached without an active loop in " + fr.key))
+	}
+	pos := b.Instrs[0].Pos()
+	for _, in := range b.Instrs {
+		if in.Pos().IsValid() {
+			pos = in.Pos()
+			break
+		}
+	}
+	fr.curLoop = li
+	defer func() { fr.curLoop = nil }()
+	ev := x.loopEval(x.contractEval(m, fr, pos, ""), lr)
+	for i, at := range cuts {
+		at.used = true
+		ev.where = at.cl.line
+		x.oblige(m, "cut", "cut:"+clauseName(at.cl, i), ev.evalBool(at.cl.e), at.cl.tags, at.cl.text)
+	}
+	live := liveAcross(b)
+	if lr.cuts == nil {
+		lr.cuts = map[*ssa.BasicBlock]map[ssa.Value]Val{}
+	}
+	if rec, ok := lr.cuts[b]; ok {
+		for v, rv := range rec {
+			cv, have := fr.env[v]
+			if !have || !sameVal(cv, rv) {
+				panic(unsupported(fmt.Sprintf("cut in %s: value %s computed before the cut differs between paths", fr.key, v.Name())))
+			}
+		}
+		for cell, fv := range lr.cutFns[b] {
+			if cv, have := m.st.cells[cell]; !have || !sameVal(cv, fv) {
+				panic(unsupported(fmt.Sprintf("cut in %s: function value %s differs between paths", fr.key, cell.name)))
+			}
+		}
+		for v := range live {
+			if _, have := fr.env[v]; have {
+				if _, recd := rec[v]; !recd {
+					panic(unsupported(fmt.Sprintf("cut in %s: value %s is defined on some paths only", fr.key, v.Name())))
+				}
+			}
+		}
+		return false
+	}
+	rec := map[ssa.Value]Val{}
+	for v := range live {
+		if cv, have := fr.env[v]; have {
+			rec[v] = cv
+		}
+	}
+	lr.cuts[b] = rec
+	// continuation: arbitrary state of the loop in which the cut's clauses hold
+	n := len(lr.headSt.pc)
+	if len(m.st.pc) < n || (n > 0 && m.st.pc[n-1] != lr.headSt.pc[n-1]) {
+		panic("cut: path condition is not an extension of the loop head's")
+	}
+	m.st.pc = m.st.pc[:n:n]
+	kept := map[*Cell]Val{}
+	x.havocLoopRegion(m, fr, li, lr, kept, cutBetween(li, b))
+	if lr.cutFns == nil {
+		lr.cutFns = map[*ssa.BasicBlock]map[*Cell]Val{}
+	}
+	lr.cutFns[b] = kept
+	ev = x.loopEval(x.contractEval(m, fr, pos, ""), lr)
+	for _, at := range cuts {
+		ev.where = at.cl.line
+		m.st.assume(ev.evalBool(at.cl.e))
+	}
+	cov := x.oblige(m, "cover", "cut:"+clauseName(cuts[0].cl, 0), tFalse, nil, "cut point reachable under its clauses")
+	cov.expectSat = true
+	return true
 }
